@@ -134,7 +134,7 @@ Definition render_num (w : nat) (n : Z) : text :=
 Definition num_width (w : nat) (n : Z) : nat := Nat.max w (length (digits_min n)).
 
 Definition lc (c : Z) : Z := if (65 <=? c) && (c <=? 90) then c + 32 else c.
-Fixpoint apply_case (flags : list bool) (t : text) : text :=
+Fixpoint apply_case (flags : list bool) (t : text) {struct t} : text :=
   match t with
   | [] => []
   | c :: r => match flags with
@@ -164,39 +164,125 @@ Definition tc_mnemonic (ft : ftype) (sub : Z) (bit : option Z) : option text :=
       end
   end.
 
-Definition bit_part (sp : spelling) (a : addr) : text :=
-  match a_bit a with Some b => 47 :: render_num (sp_pad_bit sp) b | None => [] end.
-Definition count_part (sp : spelling) (a : addr) : text :=
-  match a_bit a with
-  | Some _ => []
-  | None => if negb (a_count a =? 1) || sp_count1 sp
-            then 123 :: render_num (sp_pad_count sp) (a_count a) ++ [125] else []
+(* the pieces of a spelled address: file letter, digit runs as written, mnemonic as written *)
+Record raw := {
+  r_ft : ftype; r_lower : bool;
+  r_file : option text;          (* None = not spelled (status file; optional for I/O) *)
+  r_elem : text;
+  r_sub : option text;           (* I/O: ".word" *)
+  r_bit : option text;           (* "/bit"; in the flat form the bit number n of Bf/n *)
+  r_count : option text;         (* "{count}" *)
+  r_flat : bool;                 (* Bf/n *)
+  r_mn : text }.                 (* timer / counter mnemonic *)
+
+Definition opt_text (o : option text) : text := match o with Some t => t | None => [] end.
+
+Definition render_raw (r : raw) : text :=
+  let L := (if r_lower r then lc (letter (r_ft r)) else letter (r_ft r)) in
+  match r_ft r with
+  | FT | FC => L :: opt_text (r_file r) ++ 58 :: r_elem r ++ 46 :: r_mn r
+  | _ =>
+      if r_flat r then L :: opt_text (r_file r) ++ 47 :: opt_text (r_bit r)
+             ++ (match r_count r with Some c => 123 :: c ++ [125] | None => [] end)
+      else L :: opt_text (r_file r) ++ 58 :: r_elem r
+             ++ (match r_sub r with Some w => 46 :: w | None => [] end)
+             ++ (match r_bit r with Some b => 47 :: b | None => [] end)
+             ++ (match r_count r with Some c => 123 :: c ++ [125] | None => [] end)
   end.
 
-Definition render (sp : spelling) (a : addr) : text :=
-  let L := (if sp_lower sp then lc (letter (a_ft a)) else letter (a_ft a)) in
-  let file := render_num (sp_pad_file sp) (a_file a) in
-  let elem := render_num (sp_pad_elem sp) (a_elem a) in
-  match a_ft a with
-  | FT | FC =>
-      match tc_mnemonic (a_ft a) (a_sub a) (a_bit a) with
-      | Some mn => L :: file ++ 58 :: elem ++ 46 :: apply_case (sp_mn_lower sp) mn
-      | None => []
-      end
-  | FS => L :: 58 :: elem ++ bit_part sp a ++ count_part sp a
-  | FI | FO =>
-      L :: (if sp_io_file sp then file else []) ++ 58 :: elem
-        ++ (if negb (a_sub a =? 0) || sp_io_word sp then 46 :: render_num (sp_pad_sub sp) (a_sub a) else [])
-        ++ bit_part sp a ++ count_part sp a
-  | FB =>
-      match a_bit a with
-      | Some b => if sp_flat_bit sp
-                  then L :: file ++ 47 :: render_num (sp_pad_bit sp) (16 * a_elem a + b)
-                  else L :: file ++ 58 :: elem ++ bit_part sp a ++ count_part sp a
-      | None => L :: file ++ 58 :: elem ++ bit_part sp a ++ count_part sp a
-      end
-  | _ => L :: file ++ 58 :: elem ++ bit_part sp a ++ count_part sp a
+Definition is_io (ft : ftype) : bool := match ft with FI | FO => true | _ => false end.
+Definition is_tc (ft : ftype) : bool := match ft with FT | FC => true | _ => false end.
+
+Definition raw_of (sp : spelling) (a : addr) : raw :=
+  let ft := a_ft a in
+  let flat := match ft, a_bit a with FB, Some _ => sp_flat_bit sp | _, _ => false end in
+  {| r_ft := ft; r_lower := sp_lower sp;
+     r_file := match ft with
+               | FS => None
+               | FI | FO => if sp_io_file sp then Some (render_num (sp_pad_file sp) (a_file a)) else None
+               | _ => Some (render_num (sp_pad_file sp) (a_file a))
+               end;
+     r_elem := render_num (sp_pad_elem sp) (a_elem a);
+     r_sub := if is_io ft && (negb (a_sub a =? 0) || sp_io_word sp)
+              then Some (render_num (sp_pad_sub sp) (a_sub a)) else None;
+     r_bit := if is_tc ft then None else
+              match a_bit a with
+              | Some b => Some (render_num (sp_pad_bit sp) (if flat then 16 * a_elem a + b else b))
+              | None => None
+              end;
+     r_count := if is_tc ft then None else
+                match a_bit a with
+                | Some _ => None
+                | None => if negb (a_count a =? 1) || sp_count1 sp
+                          then Some (render_num (sp_pad_count sp) (a_count a)) else None
+                end;
+     r_flat := flat;
+     r_mn := match tc_mnemonic ft (a_sub a) (a_bit a) with
+             | Some mn => apply_case (sp_mn_lower sp) mn
+             | None => []
+             end |}.
+
+Definition render (sp : spelling) (a : addr) : text := render_raw (raw_of sp a).
+
+(* ---- spelled addresses whose numbers are arbitrary digit runs (the domain of the rejection clause) *)
+Definition is_digit (c : Z) : bool := (48 <=? c) && (c <=? 57).
+Definition digit_run (ds : text) : bool := match ds with [] => false | _ => forallb is_digit ds end.
+Definition odigit_run (o : option text) : bool := match o with Some d => digit_run d | None => true end.
+Definition is_some {A} (o : option A) : bool := match o with Some _ => true | None => false end.
+(* the number a digit run denotes *)
+Definition num_of (ds : text) : Z := fold_left (fun a c => a * 10 + (c - 48)) ds 0.
+
+(* every letter-case variant of a text *)
+Fixpoint case_vars (t : text) : list text :=
+  match t with
+  | [] => [[]]
+  | c :: r => flat_map (fun v => [c :: v; lc c :: v]) (case_vars r)
   end.
+Definition tc_names (ft : ftype) : list text :=
+  match ft with
+  | FT => [[80; 82; 69]; [65; 67; 67]; [69; 78]; [84; 84]; [68; 78]]
+  | FC => [[80; 82; 69]; [65; 67; 67]; [67; 85]; [67; 68]; [68; 78]; [79; 86]; [85; 78]; [85; 65]]
+  | _ => []
+  end.
+Definition tc_spellings (ft : ftype) : list text := flat_map case_vars (tc_names ft).
+Fixpoint text_mem (t : text) (l : list text) : bool :=
+  match l with
+  | [] => false
+  | x :: r => (if list_eq_dec Z.eq_dec x t then true else false) || text_mem t r
+  end.
+
+(* the pieces have the form of an address of the grammar; digit runs of ANY length *)
+Definition raw_form (r : raw) : bool :=
+  (digit_run (r_elem r) || r_flat r)
+  && odigit_run (r_file r) && odigit_run (r_sub r) && odigit_run (r_bit r) && odigit_run (r_count r)
+  && match r_ft r with
+     | FT | FC => is_some (r_file r) && negb (r_flat r) && text_mem (r_mn r) (tc_spellings (r_ft r))
+                  && negb (is_some (r_sub r)) && negb (is_some (r_bit r)) && negb (is_some (r_count r))
+     | FS => negb (is_some (r_file r)) && negb (r_flat r) && negb (is_some (r_sub r))
+     | FI | FO => negb (r_flat r)
+     | FB => is_some (r_file r) && negb (is_some (r_sub r)) && (negb (r_flat r) || is_some (r_bit r))
+     | _ => is_some (r_file r) && negb (r_flat r) && negb (is_some (r_sub r))
+     end.
+
+(* all numbers inside the ranges of the property: file 1..255 (the I/O file number, when spelled,
+   at most 255), element 0..255, bit 0..15, binary-file bit number 0..4095 *)
+Definition spec_in_range (r : raw) : bool :=
+  match r_ft r with
+  | FS => true
+  | FI | FO => match r_file r with Some f => num_of f <=? 255 | None => true end
+  | _ => match r_file r with Some f => zin 1 255 (num_of f) | None => false end
+  end
+  && (if r_flat r then match r_bit r with Some n => zin 0 4095 (num_of n) | None => false end
+      else zin 0 255 (num_of (r_elem r))
+           && match r_bit r with Some b => zin 0 15 (num_of b) | None => true end).
+
+(* some digit run is longer than the grammar allows (3 digits file / element / word, 2 for a bit,
+   4 for a binary-file bit number) *)
+Definition longer (n : nat) (o : option text) : bool :=
+  match o with Some d => (n <? length d)%nat | None => false end.
+Definition overlong (r : raw) : bool :=
+  longer 3 (r_file r) || (negb (r_flat r) && (3 <? length (r_elem r))%nat) || longer 3 (r_sub r)
+  || longer (if r_flat r then 4 else 2) (r_bit r).
 
 (* the digit runs stay within what the grammar allows: 3 digits for file / element / word,
    2 for a bit, 4 for a binary-file bit number *)
@@ -213,8 +299,10 @@ Record dfile := { df_num : Z; df_ft : ftype; df_ew : Z; df_words : list Z }.
 Definition table := list dfile.
 
 Definition word_ok (w : Z) : bool := (0 <=? w) && (w <? 65536).
+(* 16-bit words; whole elements *)
 Definition dfile_ok (f : dfile) : bool :=
   forallb word_ok (df_words f) && (1 <=? df_ew f)
+  && (Z.of_nat (length (df_words f)) mod df_ew f =? 0)
   && match fixed_ewords (df_ft f) with Some k => df_ew f =? k | None => true end.
 Definition table_ok (t : table) : bool := forallb dfile_ok t.
 
